@@ -4,6 +4,9 @@ CONSTANTS
   Stable = TRUE
   KeySet = {1, 2, 3, 4, 5, 6}
   ValSet = {1, 2, 3}
+  HashVals = {}
+  IntKeys = {}
+  NegKeys = {}
   ShardCounts = {1, 2, 3, 4, 7}
   Depth = 16
 INVARIANTS Emit
